@@ -119,9 +119,12 @@ CRfOpen ==
     /\ mpc.ph = "ctor" /\ mpc.st = "rf_open"
     /\ Go("rf_read")
     /\ Op(MainId, "open_r_out") /\ UNCHANGED <<files, evalLock, fileLock, cids, regd>> /\ CtorKeep
-CRfRead ==        \* first row; an empty file: "will start with header"
+CRfRead ==        \* first row; an empty file: "will start with header"; another header: the constructor
+                  \* refuses the file (AssertionError) and the session is over without touching anything
     /\ mpc.ph = "ctor" /\ mpc.st = "rf_read"
-    /\ Go(IF files[Out(A)].ls = <<>> /\ HeaderOnEmpty THEN "hdr_open" ELSE "exists_buf")
+    /\ IF files[Out(A)].ls # <<>> /\ files[Out(A)].ls[1] # "H"
+       THEN mpc' = M("failed", 0, "-")
+       ELSE Go(IF files[Out(A)].ls = <<>> /\ HeaderOnEmpty THEN "hdr_open" ELSE "exists_buf")
     /\ Op(MainId, "read_out") /\ UNCHANGED <<files, evalLock, fileLock, cids, regd>> /\ CtorKeep
 CExistsBuf ==
     /\ mpc.ph = "ctor" /\ mpc.st = "exists_buf"
@@ -305,18 +308,18 @@ NewSession ==
 
 \* SIGKILL of the whole session at any moment before it is over
 Crash ==
-    /\ mpc.ph # "over" /\ crashes < MaxCrashes /\ sess < MaxSessions
+    /\ mpc.ph \notin {"over", "failed"} /\ crashes < MaxCrashes /\ sess < MaxSessions
     /\ crashes' = crashes + 1
     /\ NewSession
     /\ Op(MainId, "crash") /\ UNCHANGED files
 \* a further session after a completed one
 Restart ==
-    /\ mpc.ph = "over" /\ sess < MaxSessions
+    /\ mpc.ph \in {"over", "failed"} /\ sess < MaxSessions
     /\ NewSession
     /\ Op(MainId, "restart") /\ UNCHANGED <<files, crashes>>
 
 \* the history is over: only here may nothing happen any more (anything else is a deadlock)
-Terminated == mpc.ph = "over" /\ UNCHANGED vars
+Terminated == mpc.ph \in {"over", "failed"} /\ UNCHANGED vars
 
 Main == Ctor \/ BeginExit \/ XExists \/ XRm
 Next == Main \/ (\E c \in CallIds : Call(c)) \/ Crash \/ Restart \/ Terminated
@@ -332,7 +335,8 @@ Count(s, x) == Cardinality({i \in 1..Len(s) : s[i] = x})
 
 \* C16/C17 safety, in every reachable state
 NoDupRows        == \A a \in AggSet : \A i, j \in 1..Len(Rows(a)) : (Rows(a)[i] = Rows(a)[j] /\ Rows(a)[i] # "H") => i = j
-HeaderFirstOnce  == \A a \in AggSet : Len(Rows(a)) > 0 => (Rows(a)[1] = "H" /\ Count(Rows(a), "H") = 1)
+HeaderFirstOnce  == \A a \in AggSet : (Len(Rows(a)) > 0 /\ ~(InitOut.ls # <<>> /\ InitOut.ls[1] # "H"))
+                                          => (Rows(a)[1] = "H" /\ Count(Rows(a), "H") = 1)
 RowsAreSubjects  == \A a \in AggSet : \A i \in 1..Len(Rows(a)) : Rows(a)[i] = "H" \/ Rows(a)[i] \in SubjectsOf(a) \cup Range(InitOut.ls)
 \* a statistics snapshot only ever holds the header and complete rows of its own file
 SnapOnlyComplete == \A c \in CallIds : snap[c] # <<"?">> =>
@@ -358,6 +362,8 @@ RowsAppendOnly == [][\A a \in AggSet : /\ Len(Rows(a)') >= Len(Rows(a))
                                        /\ SubSeq(Rows(a)', 1, Len(Rows(a))) = Rows(a)]_vars
 
 \* liveness: no call blocks forever - every session that is not killed comes to its end
-AllDone == <>(mpc.ph = "over")
+AllDone == <>(mpc.ph \in {"over", "failed"})
+\* a file with a foreign header is refused and never modified
+ForeignRefused == [][(InitOut.ls # <<>> /\ InitOut.ls[1] # "H") => \A a \in AggSet : files'[Out(a)] = files[Out(a)]]_vars
 EventuallyOver == []<>(mpc.ph = "over" \/ ENABLED Crash)
 =============================================================================
